@@ -67,6 +67,13 @@ def wellformed(rnd, tier, structs=True, messages=True, streams=True, per_type=No
                     r = M.response(cc, nsess=rnd.choice([1, 2]), encrypt=True)
                     if r is not None:
                         cases.append(Case("Response", cc, True, r[1], "wf_rsp", r[0], r[2]))
+        if messages:
+            # failed responses are header-only whatever the command code is: decoded without a command code, under a reserved
+            # code (no layouts), under some other command's code, and with the response-encryption flag set (seed C04e)
+            for rc in ([0x101, 0x922] if tier == "quick" else [0x101, 0x1C4, 0x922, 0x9A2, 0x84, 0x18B, 0x1E]):
+                for ccx, encx in [(None, False), (0x123, False), (0x20000123, False), (rnd.choice(M.ccs), True), (None, True)]:
+                    r = M.response(rnd.choice(M.ccs), rc=rc)
+                    cases.append(Case("Response", ccx, encx, r[1], "wf_rsp", r[0], {**r[2], "cc": ccx, "anycc": True}))
     return L, M, cases
 
 
